@@ -297,7 +297,7 @@ def run(ctx):
         if f["what"] in seen:
             continue
         seen.add(f["what"])
-        ctx.violation(f["what"], dict(kind="c19", **f))
+        ctx.violation(f["what"], {**f, "check": "c19"})
 
 
 def replay(doc):
